@@ -12,11 +12,19 @@ prop("C19", "fault_enumeration",
      "per case: the base exchange (A, K) is made either by a real Client whose ClientAck is captured in the filter, or by the harness "
      "driving the real message functions (writePQClientHello / readPQServerHello / writePQClientAck); the acknowledgement is presented "
      "from {A, same IP other port, other IP same port, both different} x {K, KEM field overwritten by another valid key, other key "
-     "with the MAC recomputed from K's shared secret} x {cookie intact, one cookie byte xored (every byte, ciphertext and tag "
+     "with the MAC recomputed from K's shared secret, K ALTERED IN EXACTLY ONE REGION of its 800-byte encoding - one bit or one byte "
+     "at a drawn offset (biased to 0,1,2,383..385,766..769,798,799), or 4..400 bytes at the start / in the middle / at the end / "
+     "across byte 768, rewritten so that the key stays acceptable to the key parser (the 12-bit coefficients of the first 768 "
+     "bytes stay below the modulus, the trailing 32-byte seed is free) - with the KEM field overwritten resp. with transcript and "
+     "MACs recomputed for the altered key} x {cookie intact, one cookie byte xored (every byte, ciphertext and tag "
      "region), cookie of another exchange: other address+key / same address other key / same key other address} x presented 0..115 s "
      "or 121..300 s (one or two key rotations) after the ServerHello x AGE OF THE SERVER when the cookie is minted (just started, or "
      "130 / 250 / 370 s resp. a drawn instant inside its 1st..6th key period, never within 2 s of a rotation instant), so that "
-     "cookies minted after the first rotation and presented after a later one occur. For the harness-driven base every altered acknowledgement "
+     "cookies minted after the first rotation and presented after a later one occur x WHAT THE SERVER IS DOING AROUND THE ROTATION "
+     "INSTANTS between minting and presentation (per instant: nothing; a valid client hello from another address arriving 1..2500 ms "
+     "before the instant whose ServerHello takes a drawn time to leave the socket (simnet write gate) - either finishing before the "
+     "instant or still in progress at it, i.e. the hello handler holds the cookie key locked when the rotation falls due; a burst "
+     "of 1..16 hellos at the instant itself; both). For the harness-driven base every altered acknowledgement "
      "carries a MAC that is consistent with what it presents, so only the cookie's binding stands between it and acceptance. Oracle: "
      "a ServerAuth datagram leaves the server, or a handshake/session entry appears, ONLY for (A, K, intact cookie, cookie key "
      "unchanged since minting - compared white-box - AND no rotation instant, every 120 s counted from the start of Serve, between "
@@ -43,6 +51,10 @@ prop("C19", "fault_enumeration",
      "trivially silent). Non-trivial = every probe except a fresh valid request; distinct by case.",
      ["ML-KEM, X25519, SHA-3, Kravatte-SANSE and the Cyclist duplex are treated as ideal; alterations are structural",
       "server HandshakeTimeout 5 s, client HSTimeout 2 s, cookie rotation every 2 min, all on the virtual clock",
+      "a socket send that is in progress at a rotation instant sleeps virtually up to the instant and then stays blocked for 4 ms of "
+      "REAL time with the virtual clock standing still (a virtual sleep across the instant would freeze the bubble: the rotation "
+      "goroutine waits for a sync.Mutex, which is not a durable block); whether the rotation goroutine reaches the lock within "
+      "those 4 ms is up to the Go scheduler - the verdict does not depend on it on a correct server",
       "the cookie key's period is taken from handshake_spec.md ('K_r is a key that is rotated every N minutes') with N = 2 as in "
       "Server.Serve: a cookie is 'minted under the current key' only until the next multiple of 120 s of serving time; a server that "
       "keeps a key beyond its period and still accepts its cookies is reported (cookie-accepted:rotation-overdue)",
@@ -58,7 +70,8 @@ prop("C19", "fault_enumeration",
      text="Fault enumeration and random search against a real server on a simulated network with a virtual clock: hello floods with a "
           "white-box footprint of all server tables; one client acknowledgement per case presented from another address, under "
           "another key, with an altered or foreign cookie, or after cookie-key rotation (cookies minted in the server's 1st..6th key "
-          "period); one probe class per case against a hidden "
+          "period; keys that differ from the client's key in a single region - down to its last bit; the server busy answering "
+          "hellos over a slow socket when a rotation falls due); one probe class per case against a hidden "
           "server (among them correctly keyed requests with boundary values of the 64-bit time stamp field and their late replays) "
           "with the wire log of the server's address as the observation point.",
      note="trusts synctest, vlib/simnet (wire log), the white-box read of Server.handshakes/sessions/cookieKey; the cryptographic "
